@@ -389,10 +389,13 @@ impl NHist {
         self.ev(&e)
     }
     pub fn rx_bytes(&mut self, snr: i8, bytes: &[u8]) -> &mut Self {
+        self.rx_bytes_hint(snr, bytes, None)
+    }
+    pub fn rx_bytes_hint(&mut self, snr: i8, bytes: &[u8], hint: Option<u32>) -> &mut Self {
         if !self.can_rx() {
             return self;
         }
-        let item = self.a.frame_item(snr, bytes, None);
+        let item = self.a.frame_item(snr, bytes, hint);
         let parts: Vec<&str> = item[1..].split('/').collect();
         let e = format!("nradio rx {}", parts.join(" "));
         self.ev(&e)
@@ -621,6 +624,10 @@ pub fn add_dev_classes(suite: &str, rng: &mut Rng, sink: &mut Sink, thorough: bo
             let op = gen_join_history(suite, region, rng, i % 2 == 0);
             sink.case(&op, &eval(&op), "device-join", true);
         }
+        for i in 0..(if thorough { 40 } else { 4 }) {
+            let op = if i % 2 == 0 { gen_nb_held_queue(suite, region, rng) } else { gen_dev_held_queue(suite, region, rng, i % 4 == 1) };
+            sink.case(&op, &eval(&op), "held-downlink-queue", true);
+        }
     }
 }
 
@@ -635,6 +642,10 @@ pub fn oracle_c05_dev(op: &str, outs: &[String]) -> String {
     let evs: Vec<&str> = op.split(';').skip(1).map(|s| s.trim()).collect();
     let mut last: Option<u32> = None;
     let mut joined = false;
+    // `hold`: downlinks stay in the device's queue (capacity 8; a downlink accepted on a full queue
+    // is dropped, as coded) until `take`
+    let mut hold = false;
+    let mut queue: Vec<String> = vec![];
     for (ev, o) in evs.iter().zip(outs.iter()) {
         if o == "PANIC" || o == "HANG" || o.contains("STUCK") {
             return format!("FAIL:{}", o.split_whitespace().next().unwrap_or("?"));
@@ -645,6 +656,19 @@ pub fn oracle_c05_dev(op: &str, outs: &[String]) -> String {
         };
         let w: Vec<&str> = cmd.split_whitespace().collect();
         match w.first().copied() {
+            Some("hold") => {
+                hold = true;
+                continue;
+            }
+            Some("take") => {
+                let got = o.trim_start_matches("dls=").trim();
+                let want = if queue.is_empty() { "-".to_string() } else { queue.join(",") };
+                if got != want {
+                    return format!("FAIL:collected-[{}]-expected-[{}]", got, want);
+                }
+                queue.clear();
+                continue;
+            }
             Some("abp") => {
                 joined = true;
                 last = None;
@@ -734,7 +758,16 @@ pub fn oracle_c05_dev(op: &str, outs: &[String]) -> String {
         }
         let dls = rest.split(" dls=").nth(1).unwrap_or("-").trim();
         let got: Vec<String> = if dls == "-" { vec![] } else { dls.split(',').map(|x| x.to_string()).collect() };
-        if got != expect_dls {
+        if hold {
+            for d in &expect_dls {
+                if queue.len() < 8 {
+                    queue.push(d.clone());
+                }
+            }
+            if !got.is_empty() {
+                return "FAIL:downlink-handed-out-while-the-application-is-not-collecting".into();
+            }
+        } else if got != expect_dls {
             return format!("FAIL:delivered-[{}]-expected-[{}]", got.join(","), expect_dls.join(","));
         }
         if let Some(n) = class_a_accept {
@@ -775,11 +808,26 @@ pub fn oracle_c05_nb(op: &str, outs: &[String]) -> String {
     let mut joined = false;
     let mut joining = false;
     let mut mp: Option<u32> = None;
+    let mut hold = false;
+    let mut queue: Vec<String> = vec![];
     for (ev, o) in evs.iter().zip(outs.iter()) {
         if o == "PANIC" || o == "HANG" {
             return format!("FAIL:{}", o);
         }
         let w: Vec<&str> = ev.split('|').next().unwrap_or("").split_whitespace().collect();
+        if w.first() == Some(&"hold") {
+            hold = true;
+            continue;
+        }
+        if w.first() == Some(&"take") {
+            let got = o.trim_start_matches("dls=").trim();
+            let want = if queue.is_empty() { "-".to_string() } else { queue.join(",") };
+            if got != want {
+                return format!("FAIL:collected-[{}]-expected-[{}]", got, want);
+            }
+            queue.clear();
+            continue;
+        }
         if let Some(i) = o.find("rxreq(") {
             let f: Vec<&str> = o[i + 6..].split(')').next().unwrap_or("").split(',').collect();
             mp = f.get(3).and_then(|x| x.parse().ok());
@@ -848,7 +896,14 @@ pub fn oracle_c05_nb(op: &str, outs: &[String]) -> String {
                         Ok(p) if p > 0 => format!("{}:{}", p, if w[11] == "-" { "" } else { w[11] }),
                         _ => "-".to_string(),
                     };
-                    if dls != want {
+                    if hold {
+                        if want != "-" && queue.len() < 8 {
+                            queue.push(want.clone());
+                        }
+                        if dls != "-" {
+                            return "FAIL:downlink-handed-out-while-the-application-is-not-collecting".into();
+                        }
+                    } else if dls != want {
                         return format!("FAIL:delivered-[{}]-expected-[{}]", dls, want);
                     }
                 } else if dls != "-" {
@@ -870,4 +925,82 @@ pub fn oracle_nb_all(op: &str, outs: &[String]) -> String {
         }
     }
     "ok".into()
+}
+
+
+/// The application does not collect downlinks (`hold`): the device's queue (capacity 8 in the
+/// harness' device types) fills up; then frames that are NOT accepted are heard, then the queue is
+/// collected (`take`).  A rejected frame must not cost a queued downlink; a downlink accepted on a
+/// full queue is dropped (as coded: `let _ = dl.push(..)`).
+pub fn gen_nb_held_queue(suite: &str, region: &str, rng: &mut Rng) -> String {
+    let mut h = NHist::new(suite, region, rng.next() & 0xffffff, 0, 100);
+    h.ev(&format!("abp {}", DEVADDR));
+    h.ev("hold");
+    let mut ts: u32 = 1000;
+    let fill = 6 + rng.below(5);
+    for k in 0..fill + 2 {
+        h.ev(&format!("nsend {} 0 {:02x}", 1 + rng.below(200), k));
+        ts += 3000;
+        h.ev(&format!("nradio txdone {}", ts));
+        h.ev("ntimeout"); // RX1 opens
+        if k < fill || rng.chance(1, 2) {
+            let payload = [k as u8, 0xd0];
+            h.rx_auth(0, rng.chance(1, 4), &[], Some(1 + k as u8), &payload);
+        } else {
+            // a frame that is not accepted: junk, or a replay of an old counter
+            if rng.chance(1, 2) {
+                let nb = 5 + rng.below(20) as usize;
+                let b = rng.bytes(nb);
+                h.rx_bytes(0, &b);
+            } else {
+                let mut d = DownDesc::new(h.a.devaddr, 0);
+                d.nwk = h.a.nwk;
+                d.app = h.a.app;
+                d.fport = Some(9);
+                d.payload = vec![1, 2, 3];
+                d.confirmed = rng.chance(1, 2);
+                let b = d.build().unwrap();
+                h.rx_bytes_hint(0, &b, Some(0));
+            }
+            h.ev("ntimeout"); // RX1 closes
+            h.ev("ntimeout"); // RX2 opens
+            h.ev("ntimeout"); // RX2 closes: procedure complete
+        }
+    }
+    h.ev("take");
+    h.ev("snap");
+    h.done()
+}
+
+/// the same on the async front-end
+pub fn gen_dev_held_queue(suite: &str, region: &str, rng: &mut Rng, class_c: bool) -> String {
+    let mut h = AHist::new(suite, region, rng.next() & 0xffffff, 15, 40, class_c, 57);
+    h.abp();
+    h.ev("hold");
+    let fill = 6 + rng.below(5);
+    // radio calls of a Class A uplink: tx lp srx rxs …; Class C: tx srx rxc srx rxs …
+    let lead: Vec<String> = if class_c { vec!["O".into(), "O".into(), "O".into(), "O".into()] } else { vec!["O".into(), "O".into(), "O".into()] };
+    for k in 0..fill + 2 {
+        let mut script = lead.clone();
+        if k < fill || rng.chance(1, 2) {
+            script.push(h.auth_item(0, 1, rng.chance(1, 4), &[], Some(1 + k as u8), &[k as u8, 0xd0]));
+        } else if rng.chance(1, 2) {
+            let nb = 5 + rng.below(20) as usize;
+            let b = rng.bytes(nb);
+            script.push(h.frame_item(0, &b, None));
+        } else {
+            let mut d = DownDesc::new(h.devaddr, 0);
+            d.nwk = h.nwk;
+            d.app = h.app;
+            d.fport = Some(9);
+            d.payload = vec![1, 2, 3];
+            d.confirmed = rng.chance(1, 2);
+            let b = d.build().unwrap();
+            script.push(h.frame_item(0, &b, Some(0)));
+        }
+        h.asend(1 + rng.below(200) as u8, false, &[k as u8], &script);
+    }
+    h.ev("take");
+    h.ev("snap");
+    h.done()
 }
